@@ -69,7 +69,10 @@ theorem xml_parent_links (x : Bytes) (n : Node) (h : decode x = .node n) :
 theorem xml_root_parent_null (x : Bytes) (n : Node) (h : decode x = .node n) : n.parent = none :=
   decode_root_parent true x n h
 
-/-- a node `c` of a returned tree to which a handle is kept while the tree itself is released (`survivor`:
+/-- DEFINITIONAL first conjunct: `survivor c` is *defined* as `c.clearParent` — that `~_Xml` performs this
+    clearing (commit c581d77) is a postulate of the model, observed by the K ops `sub` / `desc` under ASan only
+    (the model has no heap, reference count or destructor). CONTENT: the second conjunct (links below `c` hold).
+    A node `c` of a returned tree to which a handle is kept while the tree itself is released (`survivor`:
     `~_Xml` of its container clears the raw parent pointer, commit c581d77 — before it `c.parent()` read
     freed memory) has a null parent, and every parent link below it still holds -/
 theorem xml_survivor_links (x : Bytes) (n c : Node) (h : decode x = .node n) (hc : c ∈ preorder n) :
@@ -87,19 +90,36 @@ theorem xml_descend_links (x : Bytes) (n : Node) (h : decode x = .node n) :
       ∀ e, Within e (survivor (descend n)) → ∀ d ∈ children e, d.parent = some e.id :=
   ⟨descend_mem_preorder n, xml_survivor_links x n (descend n) h (descend_mem_preorder n)⟩
 
-/-- a child `c` of any element `e` of a returned tree that is taken out of `e` by `remove(int)`,
-    `remove(const Xml&)`, `clear()` or `put(value)` (`detached`: its parent pointer is cleared when it leaves,
-    commit dcdfbd7 — before it `c.parent()` kept naming `e`, and read freed memory once `e` was destroyed) has a
-    null parent, also after everything else is released, and every parent link below it still holds -/
-theorem xml_detached_child_links (x : Bytes) (n e c : Node) (h : decode x = .node n) (he : e ∈ preorder n)
-    (hc : c ∈ children e) :
-    (detached c).parent = none ∧ (survivor (detached c)).parent = none ∧
-      ∀ e', Within e' (detached c) → ∀ d ∈ children e', d.parent = some e'.id := by
-  refine ⟨parent_clearParent c, parent_clearParent _, links_of_linksOK ?_⟩
+/-- a child `c` of any element `e` of a returned tree that is taken out of `e` by a mutator that orphans
+    (`remove(int)`, `remove(const Xml&)`, `clear()`, `put(value)`; commit dcdfbd7).
+    DEFINITIONAL PART (no content beyond the model's postulate `Mutator.orphans`, tied to the code by the K op
+    `mut` only): the first two conjuncts, null parent at once and after everything else is released.
+    CONTENT: the third conjunct, every parent link below the detached child still holds (from `decode_links`).
+    Audit suggestion kept: model handles with reference counts and `~_Xml`'s release loop (cf. `AslModel/RcNest.lean`)
+    and prove "after any sequence of handle drops and mutators every live node's parent is null or a live node". -/
+theorem xml_detached_child_links (m : Mutator) (hm : m.orphans = true) (x : Bytes) (n e c : Node)
+    (h : decode x = .node n) (he : e ∈ preorder n) (hc : c ∈ children e) :
+    (detachedBy m c).parent = none ∧ parentAfterRelease m c = .null ∧
+      ∀ e', Within e' (detachedBy m c) → ∀ d ∈ children e', d.parent = some e'.id := by
+  have hd : detachedBy m c = c.clearParent := by simp [detachedBy, hm]
+  refine ⟨by rw [hd]; exact parent_clearParent c, by simp [parentAfterRelease, hd, parent_clearParent], ?_⟩
+  rw [hd]
+  refine links_of_linksOK ?_
   have hw : Within c n := Within.child (mem_preorder_within n e he) hc
-  show linksOK c.clearParent = true
   rw [linksOK_clearParent]
   exact within_links hw (decode_links true x n h)
+
+/-- KNOWN FINDING `raw-children-array`, stated on the model: a child of an element `e` of a returned tree that
+    leaves `e` through the array handed out by the non-const `children()` (`children().remove(i)`, `.clear()`,
+    `.resize(0)`, `children()[i] = x`: no code of `Xml` runs) keeps `e`'s address; once `e` is destroyed the
+    pointer dangles and `parent()` reads freed memory (replayed by the KNOWN probe of the plugin).
+    Uses `xml_parent_links` (the child did point at `e`); that the raw operations orphan nothing is the model's
+    postulate `Mutator.orphans`, observed by the probe. -/
+theorem xml_raw_children_array_dangles (m : Mutator) (hm : m.orphans = false) (x : Bytes) (n e c : Node)
+    (h : decode x = .node n) (he : e ∈ preorder n) (hc : c ∈ children e) :
+    parentAfterRelease m c = .dangling e.id := by
+  have hp : c.parent = some e.id := xml_parent_links x n h e (mem_preorder_within n e he) c hc
+  simp [parentAfterRelease, detachedBy, hm, hp]
 
 /-- the identities of the nodes of a returned tree (`ids`: the node, then its descendants in document
     order) are pairwise distinct — so "parent = identity of the container" in `xml_parent_links` names
